@@ -40,6 +40,9 @@ CHECKS = {
  "C17": dict(level="fault_enumeration", design="§4 C17",
    text="Stream decoder: for small inputs every single cut, every pair of cuts with an interleaved empty read, EOF-with-data and a reader FAILURE at every byte position (whole and 1-byte reads) are enumerated; large inputs crossing the 4096/8192/16384-byte buffers get sampled chunkings. Oracle: encoding/json.Decoder driven by the very same reader: same value sequence, same terminal class, injected error returned by identity, logical progress (InputOffset strictly increases), and values returned earlier do not change after later Decode calls (three decoder configurations incl. CopyString+UseNumber). Stream encoder: Writer failing at every write index, short writes, repeated Encode; bytes must equal Marshal (+newline).",
    technique="fault enumeration over reader cut positions and reader/writer failure positions, with encoding/json.Decoder on the same reader as the runtime oracle"),
+ "C05": dict(level="exploration", design="§4 C05",
+   text="Placement monitoring with guard pages: every input (block sweeps of 6 document shapes and plain strings x length x position x 16 special byte groups, every prefix of seeded documents, seeded random/mutated documents, raw strings up to 9000 bytes, escape bodies, number literals) is run, without copying, through ~45 byte-consuming entry points (validation, decoding into 10 destination kinds under 3 configs, Skip, Get with 7 paths, ast load/search/walk/Preorder, Marshal of RawMessage/Number; Quote, unquote, HTMLEscape, utf8.*, Marshal of string/map key/[]byte/`,string`) on a heap copy and on the same bytes ending exactly at a PROT_NONE page, starting exactly after one, at 4 offsets from a 64-byte boundary followed by continuations that would change the result if read, and 1-40 bytes before a PROT_NONE page with such a fill. The per-API outcome (error class, position, hash of the error text, value digest) must be identical in all placements; an out-of-bounds read next to a guard page is a SIGSEGV that kills the worker, which the orchestrator reports with the input recorded just before. Runs under the AVX2 table, the SSE table and optdec. Two native over-reads found this way are open findings (B42, B43).",
+   technique="sanitizer-style runtime monitoring with mmap/mprotect guard pages + placement-invariance oracle (same-process differential over placements)"),
  "C18": dict(level="exploration", design="§4 C18",
    text="Metamorphic runtime monitoring of the 16 Config switches: for a switch S and a random setting R of the 15 others, the same value/document is run with R and R+S in the same process and the difference must be exactly S's documented effect (EscapeHTML == json.HTMLEscape(out_R); SortMapKeys reorders members only; NoNullSliceOrMap == out_R of the value with nil containers made empty; ValidateString == UTF-8-corrected out_R / decode of the corrected document; EncodeNullForInfOrNan via a sentinel; CompactMarshaler changes no token; marshaler switches inert on marshaler-free types; NoEncoderNewline removes only the stream newline; UseInt64/UseNumber change only interface{} numbers; CopyString/NoValidateJSONSkip inert on valid documents; DisallowUnknownFields agrees with encoding/json on which documents have unknown keys; UseUnicodeErrors inert without lone surrogates and reporting with them; CaseSensitive == encoding/json on the exact-key-filtered document), plus entry-point equivalence (encoder.Encode/EncodeInto/MarshalToString/MarshalIndent/stream encoder vs Froze().Marshal; decoder.Decoder+SetOptions/UnmarshalFromString vs Froze().Unmarshal). Runs in a JIT process and a VM-encoder+optdec process; per-switch 'fired' counters show the switch had something to act on.",
    technique="metamorphic runtime monitor (single-switch relations with encoding/json post-processors as oracles) + entry-point equivalence, seeded over types/values/documents/other switches"),
